@@ -288,6 +288,10 @@ def call_select_cli(screen, desc, k, batch, eligible_hint, target, cli, ties=Non
         fn = os.path.join(d, "scores%d.h5" % part)
         h.save_h5(fn)
         files.append(fn)
+    if not files:
+        # nothing was scored (every plate is observed or already in the batch; the SizeScorer table of the `size` tie mode is then empty):
+        # `--scores` needs at least one file, so the command cannot be invoked at all -- the library call answers this step
+        return _call_select(screen, desc, k, batch, eligible_hint, target, None, False, ties)
     CALLS[0] += 1
     argv = ["select_next_plate", "--data", data_fn, "--scores"] + files + ["--policy", "VerifRecKPerSample", "--policy-param", "k=%d" % k,
                                                                             "--output", out_fn, "--seed", str(CALLS[0] % 3)]
